@@ -29,3 +29,11 @@ pub proof fn lemma_enc_list_push(ms: Seq<(Seq<i64>, Seq<i64>)>, m: (Seq<i64>, Se
         lemma_enc_list_push(ms.skip(1), m);
     }
 }
+// documented binary predicate encoding: be16(#nodes) ++ per node (be16(edge_start) ++ 32 address bytes) ++ be16(#edges) ++ per edge be16(edge)
+pub open spec fn be16(x: u16) -> Seq<u8> { seq![(x >> 8) as u8, (x & 0xff) as u8] }
+pub open spec fn enc_nodes(starts: Seq<u16>, addrs: Seq<Seq<u8>>) -> Seq<u8> decreases starts.len() {
+    if starts.len() == 0 || addrs.len() != starts.len() { Seq::<u8>::empty() } else { enc_nodes(starts.drop_last(), addrs.drop_last()) + be16(starts.last()) + addrs.last() } }
+pub open spec fn enc_edges(edges: Seq<u16>) -> Seq<u8> decreases edges.len() {
+    if edges.len() == 0 { Seq::<u8>::empty() } else { enc_edges(edges.drop_last()) + be16(edges.last()) } }
+pub open spec fn enc_predicate(starts: Seq<u16>, addrs: Seq<Seq<u8>>, edges: Seq<u16>) -> Seq<u8> {
+    be16(starts.len() as u16) + enc_nodes(starts, addrs) + be16(edges.len() as u16) + enc_edges(edges) }
